@@ -890,6 +890,52 @@ def gen_CrashFacts():
     return "".join(out), {x.path: x.digest for x in (sf, sm, fh, sd, ut, lc, dk)}
 
 
+def gen_SfFacts():
+    """Pins for utils::singleflight (C20): the atomic actions of the model are read off these statements."""
+    sf = Src(os.path.join(REPO, "utils/src/singleflight.rs"))
+    er = Src(os.path.join(REPO, "utils/src/errors.rs"))
+    out = [PRELUDE]
+    cp = sf.fn_body("complete")
+    seq = ["let mut val = self.res.write();", "*val = Some(res);", "self.nt.notify_waiters();"]
+    pos = [cp.find(x) for x in seq]
+    if -1 in pos or pos != sorted(pos):
+        raise TranslateError("Call::complete: store-then-notify under the write lock changed")
+    gf = sf.fn_body("get_future")
+    seq = ["let res = self.res.read();", "if let Some(result) = res.clone() {", "Either::Left(async move { result })", "let notified = self.nt.notified();",
+           "Either::Right(async move { notified.await; self.get() })"]
+    pos = [gf.find(x) for x in seq]
+    if -1 in pos or pos != sorted(pos):
+        raise TranslateError("Call::get_future: check-or-register under the read lock changed")
+    if "res.clone().unwrap_or(Err(SingleflightError::NoResult))" not in sf.fn_body("get"):
+        raise TranslateError("Call::get changed")
+    wk = sf.fn_body("work")
+    seq = ["let (call, created) = self.get_call_or_create(key).await;", "let results_future = call.get_future();", "if created {",
+           "let owner_task = OwnerTask::new(fut, call.clone());", "let owner_handle = Handle::current().spawn(owner_task);",
+           "let (handle_result, future_result) = tokio::join!(owner_handle, results_future);",
+           "let result = handle_result .map_err(|e| SingleflightError::JoinError(e.to_string())) .and(future_result);",
+           "if let Err(e) = self.remove_call(key).await { return (Err(e), true); } (result, true)", "} else { (results_future.await, false) }"]
+    pos = [wk.find(x) for x in seq]
+    if -1 in pos or pos != sorted(pos):
+        raise TranslateError("Group::work: sequence of actions changed (%r)" % pos)
+    gc = sf.fn_body("get_call_or_create")
+    if "let mut m = self.call_map.lock().await; if let Some(c) = m.get(key).cloned() { (c, false) } else { let c = Arc::new(Call::new()); let our_call = c.clone(); m.insert(key.to_owned(), c); (our_call, true) }" not in gc:
+        raise TranslateError("get_call_or_create changed")
+    if "let mut m = self.call_map.lock().await; m.remove(key).ok_or(SingleflightError::CallMissing)?;" not in sf.fn_body("remove_call"):
+        raise TranslateError("remove_call changed")
+    pl = sf.fn_body("poll")
+    seq = ["let res: Result<T, E> = ready!(this.fut.poll(cx));", "let res = res.map_err(|e| SingleflightError::InternalError(e));", "this.got_response.store(true, Ordering::SeqCst);",
+           "call.complete(res.clone());", "Poll::Ready(res)"]
+    pos = [pl.find(x) for x in seq]
+    if -1 in pos or pos != sorted(pos):
+        raise TranslateError("OwnerTask::poll changed")
+    if "if !this.got_response.load(Ordering::SeqCst) { let call = this.call; call.complete(Err(SingleflightError::OwnerPanicked)) }" not in sf.fn_body("drop"):
+        raise TranslateError("OwnerTask drop handler changed")
+    if 'SingleflightError::InternalError(e) => SingleflightError::WaiterInternalError(format!("{e:?}")),' not in er.flat:
+        raise TranslateError("SingleflightError::clone changed")
+    out.append("Definition singleflight_shape_pinned : bool := true.\n")
+    return "".join(out), {x.path: x.digest for x in (sf, er)}
+
+
 GROUPS = {
     "GearTable": gen_GearTable,
     "ChunkConsts": gen_ChunkConsts,
@@ -900,4 +946,5 @@ GROUPS = {
     "DedupFacts": gen_DedupFacts,
     "CacheFacts": gen_CacheFacts,
     "CrashFacts": gen_CrashFacts,
+    "SfFacts": gen_SfFacts,
 }
